@@ -11,14 +11,14 @@ rsync -a --exclude .git /repo/ "$W/"
 ( cd "$SRC/demo" && find . -type f | while read f; do mkdir -p "$W/$(dirname "$f")"; cp "$f" "$W/$f"; done )
 cd "$W"
 echo "== demo on unchanged tree"
-( cd "$W/$PKG" && go test -vet=off -count=1 -run "$RUN" . 2>&1 | tail -3 )
+( cd "$W/$PKG" && go test ${SEED_GOTESTFLAGS:-} -vet=off -count=1 -run "$RUN" . 2>&1 | tail -3 )
 echo "== apply patch"
 git init -q . >/dev/null 2>&1
 git apply --whitespace=nowarn "$SRC/patch.diff" || { echo "PATCH DOES NOT APPLY"; rm -rf "$W"; exit 3; }
 go build ./... || { echo "BUILD FAILS"; rm -rf "$W"; exit 3; }
 [ -d cache ] && ( cd cache && go build ./... )
 echo "== demo with the change"
-( cd "$W/$PKG" && go test -vet=off -count=1 -run "$RUN" . 2>&1 | grep -E "^(--- FAIL|FAIL|ok|PASS)" | head -5 )
+( cd "$W/$PKG" && go test ${SEED_GOTESTFLAGS:-} -vet=off -count=1 -run "$RUN" . 2>&1 | grep -E "^(--- FAIL|FAIL|ok|PASS)" | head -5 )
 echo "== checks on the changed tree"
 find "$W" -name 'zz_seed*_test.go' -delete
 V=$(mktemp -d /tmp/tryseedv-XXXXXX); cp /verif/known_findings.json "$V/"
